@@ -51,7 +51,7 @@ def _category(cat, flags):
     return r
 
 
-def to_re(sub, flags=0, notes=None):
+def to_re(sub, flags=0, notes=None, drop_assertions=False):
     """sre SubPattern (or list of items) -> z3 regular expression"""
     parts = []
     items = list(sub)
@@ -88,13 +88,13 @@ def to_re(sub, flags=0, notes=None):
         elif name == 'CATEGORY':
             parts.append(_category(av, flags))
         elif name == 'BRANCH':
-            alts = [to_re(x, flags, notes) for x in av[1]]
+            alts = [to_re(x, flags, notes, drop_assertions) for x in av[1]]
             parts.append(alts[0] if len(alts) == 1 else z3.Union(*alts))
         elif name == 'SUBPATTERN':
-            parts.append(to_re(av[3], flags, notes))
+            parts.append(to_re(av[3], flags, notes, drop_assertions))
         elif name in ('MAX_REPEAT', 'MIN_REPEAT', 'POSSESSIVE_REPEAT'):
             lo, hi, body = av
-            b = to_re(body, flags, notes)
+            b = to_re(body, flags, notes, drop_assertions)
             if hi == sre_c.MAXREPEAT:
                 if lo == 0:
                     parts.append(z3.Star(b))
@@ -106,6 +106,10 @@ def to_re(sub, flags=0, notes=None):
                 parts.append(z3.Option(b))
             else:
                 parts.append(z3.Loop(b, lo, hi))
+        elif name in ('ASSERT', 'ASSERT_NOT') and drop_assertions:
+            continue          # zero-width: contributes nothing to the matched text
+        elif name == 'AT' and drop_assertions:
+            continue
         elif name == 'AT':
             a = str(av)
             if a in ('AT_BEGINNING', 'AT_BEGINNING_STRING') and idx == 0:
@@ -169,3 +173,41 @@ def whole_language(pattern, notes=None):
 def ident(pattern):
     import hashlib
     return 're' + hashlib.sha1((pattern.pattern + '|' + str(pattern.flags)).encode()).hexdigest()[:10]
+
+
+def alternatives(pattern):
+    """top-level alternation of the pattern: [(language of the matched text (assertions dropped) or None,
+    groups that always participate in this alternative, all groups of this alternative)]"""
+    tree = parse(pattern)
+    items = list(tree)
+    if len(items) == 1 and str(items[0][0]) == 'BRANCH':
+        alts = items[0][1][1]
+    else:
+        alts = [tree]
+    out = []
+    for a in alts:
+        always, allg = set(), set()
+
+        def walk(sub, optional):
+            for op, av in sub:
+                name = str(op)
+                if name == 'SUBPATTERN':
+                    if av[0] is not None:
+                        allg.add(av[0])
+                        if not optional:
+                            always.add(av[0])
+                    walk(av[3], optional)
+                elif name == 'BRANCH':
+                    for x in av[1]:
+                        walk(x, True)
+                elif name in ('MAX_REPEAT', 'MIN_REPEAT', 'POSSESSIVE_REPEAT'):
+                    walk(av[2], optional or av[0] == 0)
+                elif name in ('ASSERT', 'ASSERT_NOT'):
+                    walk(av[1], True)
+        walk(a, False)
+        try:
+            lang = to_re(a, pattern.flags, None, drop_assertions=True)
+        except Untranslatable:
+            lang = None
+        out.append((lang, always, allg))
+    return out
